@@ -16,6 +16,9 @@ use std::path::{Path, PathBuf};
 use std::sync::{Arc, Mutex};
 use std::time::Instant;
 
+/// number of driver threads that died (the run is then inconclusive unless it found a violation)
+pub static WORKER_PANICS: std::sync::atomic::AtomicUsize = std::sync::atomic::AtomicUsize::new(0);
+
 pub struct CaseResult {
     pub stats: Stats,
     pub failure: Option<Failure>,
@@ -223,8 +226,17 @@ where
                 .name(format!("w{w}"))
                 .stack_size(16 << 20)
                 .spawn_scoped(sc, move || {
-                    let rep = worker(def, w, per, seed, stream, findings, &root, &watch);
-                    results.lock().unwrap().push((w, rep));
+                    // a panic of the driver itself (not of a case: those are caught per case) must not leave the
+                    // watchdog below waiting for ever
+                    let rep = std::panic::catch_unwind(std::panic::AssertUnwindSafe(|| worker(def, w, per, seed, stream, findings, &root, &watch)));
+                    match rep {
+                        Ok(rep) => results.lock().unwrap_or_else(|e| e.into_inner()).push((w, rep)),
+                        Err(_) => {
+                            eprintln!("worker {w} of the proptest driver panicked (harness problem; its cases are not counted)");
+                            WORKER_PANICS.fetch_add(1, std::sync::atomic::Ordering::SeqCst);
+                        }
+                    }
+                    *watch.slots[w].lock().unwrap_or_else(|e| e.into_inner()) = None;
                     done.fetch_add(1, std::sync::atomic::Ordering::SeqCst);
                 })
                 .unwrap();
@@ -484,6 +496,10 @@ pub fn finish(id: &str, level: &str, tier: &str, seed: u64, rule: &str, assumpti
         wall
     );
     if rep.violations.is_empty() {
+        if WORKER_PANICS.load(std::sync::atomic::Ordering::SeqCst) > 0 {
+            println!("INCONCLUSIVE property={id}: {} driver thread(s) of the harness died; what ran found no violation", WORKER_PANICS.load(std::sync::atomic::Ordering::SeqCst));
+            return 2;
+        }
         0
     } else {
         let mut seen = BTreeSet::new();
